@@ -236,6 +236,7 @@ func cmdCheck(args []string) int {
 		o.Props = []string{prop}
 		obls = append(obls, o)
 	}
+	obls = append(obls, e.statelessObligations(prop)...)
 	// property-specific structural obligations (guarded-by scans etc.)
 	extraObls, extraUnits := e.propertyExtras(prop, *only)
 	obls = append(obls, extraObls...)
